@@ -171,9 +171,13 @@ def stepTiny (st : TinySt) (tl : Tally) (act : String) (ans : String) : TinySt Ã
       | some m =>
         -- monitor (aging): the counters after a firing access are the halved counters of either
         -- the previous state or the previous state with this key's counters incremented
-        let halvedPrev := rowsOf { t with sk := t.sk.reset }
-        let halvedInc := (t.sk.increment h).map (fun sk => rowsOf { t with sk := sk.reset })
-        let tl := if fires && rows != halvedPrev && some rows != halvedInc then
+        -- (judged row by row on the implementation's own previous rows, whichever counter of the row this key
+        -- maps to: a sketch with another slot function halves just as well)
+        let prevRows := rowsOf t
+        let halvedOk := prevRows.length == rows.length && (prevRows.zip rows).all fun (prev, now) =>
+          Row.reset prev == now ||
+            (List.range (2 * prev.length)).any fun i => (Row.inc prev i).map Row.reset == some now
+        let tl := if fires && !halvedOk then
             tl.monitorAt "C13" "aging reset did not halve the counters"
           else tl
         if rowsOf m == rows && m.dk.canon == bits && m.w == w then (st', { tl with ok := tl.ok + 1 })
